@@ -158,11 +158,9 @@ func (m *ModuleInstance) ensureResourcesClosed(ctx context.Context) (err error) 
 		m.Sys = nil
 	}
 
-	if mem := m.MemoryInstance; mem != nil {
-		if mem.expBuffer != nil {
-			mem.expBuffer.Free()
-			mem.expBuffer = nil
-		}
+	if mem := m.MemoryInstance; mem != nil && !m.memoryReleased {
+		m.memoryReleased = true
+		mem.release()
 	}
 
 	if m.CodeCloser != nil {
